@@ -20,7 +20,7 @@ import sys
 import base64
 import argparse
 from datetime import datetime, timedelta, UTC
-from ...encoding import Name
+from ...encoding import Name, DecodeError
 from ...app_support.security_v2 import parse_certificate, new_cert
 from .utils import resolve_keychain, infer_obj_name
 
@@ -55,7 +55,7 @@ def execute(args: argparse.Namespace):
         if not sign_req.name or not sign_req.content:
             raise ValueError()
         signee_key_name = sign_req.name[:-2]
-    except (ValueError, IndexError):
+    except (ValueError, IndexError, DecodeError):
         print('Malformed certificate')
         return -1
     # Note: Do we need to check the validity of sign_req?
